@@ -32,7 +32,6 @@ var c01APIExceptions = map[string]string{
 
 var c01MapRangeExceptions = map[string]string{
 	"evm.(*StateDBWrapper).Finish:recv.accessedObjAddrs":                "each iteration touches only the account at the iteration key (distinct keys, distinct accounts) and marks it in the overlay; the overlay is committed in sorted key order (D-2 on FinalityLedger.Commit)",
-	"evm.(*StateDBWrapper).revertAccessedObjAddr:recv.accessedObjAddrs": "collects the keys above a snapshot number and deletes exactly that set: a set operation (the debug log line is not an output)",
 }
 
 func consFuncs(x *ExecCtx) []*ssa.Function {
@@ -293,6 +292,10 @@ func (w *World) mapRangeIdiom(fn *ssa.Function, rg *ssa.Range) (string, string) 
 				switch nm {
 				case "Compare", "Equal", "String", "Key", "len":
 				default:
+					// a log line is not an output of the state machine
+					if y.Common().IsInvoke() && strings.HasSuffix(typeStr(y.Common().Value.Type()), "log.Logger") {
+						continue
+					}
 					others = append(others, in)
 				}
 			case *ssa.Go, *ssa.Defer, *ssa.Send:
@@ -345,6 +348,14 @@ func (w *World) mapRangeIdiom(fn *ssa.Function, rg *ssa.Range) (string, string) 
 		if sl := w.appendTargetPhi(ap); sl != nil {
 			if ok, why := w.sortedBeforeUse(fn, sl, loop); ok {
 				return "keys collected into a slice that is sorted (" + why + ") before any other use", ""
+			}
+		}
+		// (c) the keys collected are used for nothing but deleting them from the ranged
+		// map — here or, when the slice is handed back by a package-private helper, in
+		// every caller: a set difference, whatever the order
+		if sl := w.appendTargetPhi(ap); sl != nil && keyV != nil && len(ap.Common().Args) == 2 && strings.Contains(w.Canon(ap.Common().Args[1]), w.Canon(keyV)) {
+			if w.onlyDeletedFrom(fn, sl, w.Canon(rg.X), loop, 0) {
+				return "the keys collected are only used to delete them from the ranged map (a set difference)", ""
 			}
 		}
 		// (b) at most once, value independent of the iteration
@@ -776,10 +787,22 @@ func (w *World) pooledObjectReinitialised(c ssa.CallInstruction) (bool, string) 
 				set[fa.Field] = true
 			}
 		case ssa.CallInstruction:
-			for _, a := range y.Common().Args {
-				if a == obj {
-					escaped = true
+			for ai, a := range y.Common().Args {
+				if a != obj {
+					continue
 				}
+				// a reset helper that overwrites the whole object first thing
+				if cal := y.Common().StaticCallee(); cal != nil && w.InModule(cal) && len(cal.Blocks) > 0 && ai < len(cal.Params) && !escaped {
+					for _, in2 := range cal.Blocks[0].Instrs {
+						if st2, ok := in2.(*ssa.Store); ok && st2.Addr == ssa.Value(cal.Params[ai]) {
+							return true, "*obj = … in " + w.FName(cal)
+						}
+						if _, isCall := in2.(ssa.CallInstruction); isCall {
+							break
+						}
+					}
+				}
+				escaped = true
 			}
 		}
 	}
@@ -793,4 +816,94 @@ func (w *World) pooledObjectReinitialised(c ssa.CallInstruction) (bool, string) 
 		return true, fmt.Sprintf("all %d fields assigned", st.NumFields())
 	}
 	return false, "fields keeping what an earlier user left: " + strings.Join(missing, ", ")
+}
+
+// onlyDeletedFrom: outside the collecting loop, the slice v (a list of map keys) is
+// used only as the source of `delete(m, v[i])` with m the map of the given
+// canonical name, for its length, or as the result of a package-private function
+// all of whose callers use the result in that way.
+func (w *World) onlyDeletedFrom(fn *ssa.Function, v ssa.Value, mapCanon string, loop map[*ssa.BasicBlock]bool, depth int) bool {
+	if depth > 2 || v.Referrers() == nil {
+		return false
+	}
+	seen := map[ssa.Value]bool{}
+	nDel := 0
+	var visit func(x ssa.Value) bool
+	visit = func(x ssa.Value) bool {
+		if seen[x] {
+			return true
+		}
+		seen[x] = true
+		if x.Referrers() == nil {
+			return true
+		}
+		for _, ref := range *x.Referrers() {
+			if loop != nil && loop[ref.Block()] {
+				continue // the collecting loop itself
+			}
+			switch y := ref.(type) {
+			case *ssa.Phi:
+				if !visit(y) {
+					return false
+				}
+			case *ssa.DebugRef:
+			case *ssa.Call:
+				if bi, isB := y.Common().Value.(*ssa.Builtin); isB && bi.Name() == "len" {
+					continue
+				}
+				return false
+			case *ssa.IndexAddr:
+				// &v[i]: loaded and handed to delete(m, ·)
+				if y.Referrers() == nil {
+					continue
+				}
+				for _, r2 := range *y.Referrers() {
+					ld, isLd := r2.(*ssa.UnOp)
+					if !isLd || ld.Op != token.MUL || ld.Referrers() == nil {
+						return false
+					}
+					for _, r3 := range *ld.Referrers() {
+						switch z := r3.(type) {
+						case *ssa.DebugRef:
+						case *ssa.Call:
+							bi, isB := z.Common().Value.(*ssa.Builtin)
+							if !isB || bi.Name() != "delete" || len(z.Common().Args) != 2 || z.Common().Args[1] != ssa.Value(ld) || w.Canon(z.Common().Args[0]) != mapCanon {
+								return false
+							}
+							nDel++
+						default:
+							return false
+						}
+					}
+				}
+			case *ssa.Return:
+				// handed back: every caller of this package-private function does the same
+				if fn.Object() != nil && fn.Object().Exported() {
+					return false
+				}
+				cs := w.nodeCallers(fn)
+				if len(cs) == 0 {
+					return false
+				}
+				for _, c := range cs {
+					cv := callValue(c.Site)
+					if cv == nil || fn.Signature.Results().Len() != 1 {
+						return false
+					}
+					// the map is named in the caller as in the helper (a field of the same receiver)
+					if len(c.Site.Common().Args) == 0 || w.Canon(c.Site.Common().Args[0]) != "recv" {
+						return false
+					}
+					if !w.onlyDeletedFrom(c.Caller, cv, mapCanon, nil, depth+1) {
+						return false
+					}
+				}
+				nDel++
+			default:
+				return false
+			}
+		}
+		return true
+	}
+	return visit(v) && nDel > 0
 }
